@@ -370,9 +370,26 @@ func (c14) Execute(h *core.History) *core.Outcome {
 				}
 			}
 			if saves > 1 && !corrupted {
-				if string(data) != lastSaved {
-					report(&core.Violation{Oracle: "second-save-identical", Event: i, Sig: "C14|second-save-differs|" + kindsOfLines(diffLines(lastSaved, string(data)), bound),
-						Detail: fmt.Sprintf("saving the reloaded state gives a different file; differing lines: %q", diffLines(lastSaved, string(data)))})
+				prev, cur := linesByName(lastSaved), linesByName(string(data))
+				var diffs []string
+				kinds := map[string]bool{}
+				for _, b := range bound {
+					if b.tainted || b.tooLong {
+						continue
+					}
+					if p, ok := prev[b.name]; ok && p != cur[b.name] {
+						diffs = append(diffs, fmt.Sprintf("%s: %q -> %q", b.name, trunc(p, 80), trunc(cur[b.name], 80)))
+						kinds[b.kind] = true
+					}
+				}
+				if len(diffs) > 0 {
+					var ks []string
+					for k := range kinds {
+						ks = append(ks, k)
+					}
+					sort.Strings(ks)
+					report(&core.Violation{Oracle: "second-save-identical", Event: i, Sig: "C14|second-save-differs|" + strings.Join(ks, "+"),
+						Detail: fmt.Sprintf("saving the reloaded state gives different lines: %v", diffs)})
 				}
 			}
 			lastSaved = string(data)
@@ -482,6 +499,7 @@ func (c14) Execute(h *core.History) *core.Outcome {
 					}
 					report(&core.Violation{Oracle: oracle, Event: i, Sig: sig,
 						Detail: fmt.Sprintf("%s (%s): before save %s, after load %s", b.name, b.kind, trunc(b.canon, 200), trunc(got, 200))})
+					b.tainted, b.canon = true, got
 					continue
 				}
 				if len(b.calls) > 0 && !corrupted && !anyTooLongFunc {
@@ -512,6 +530,23 @@ func (c14) Execute(h *core.History) *core.Outcome {
 	return o
 }
 
+// linesByName indexes a saved file by binding name.
+func linesByName(data string) map[string]string {
+	out := map[string]string{}
+	for _, l := range strings.Split(data, "\n") {
+		if strings.HasPrefix(l, "func ") {
+			if i := strings.Index(l, "("); i > 5 {
+				out[l[5:i]] = l
+			}
+			continue
+		}
+		if i := strings.Index(l, "="); i > 0 {
+			out[l[:i]] = l
+		}
+	}
+	return out
+}
+
 func diffLines(a, b string) []string {
 	in := map[string]bool{}
 	for _, l := range strings.Split(a, "\n") {
@@ -532,6 +567,7 @@ type c14binding struct {
 	results           []string
 	tooLong           bool
 	saved             bool // was bound when the last save happened
+	tainted           bool // a recorded finding already changed this binding: its later lines are not judged
 }
 
 // kindsOfLines names the value kinds of the bindings whose saved lines differ.
